@@ -41,6 +41,16 @@ CHECKS = {
             '1..20000 in one-way and alternating plans; every byte must arrive once, in order, unmodified; nothing may '
             'surface after an orderly close.',
             '4/C08', TRUSTED),
+    'C10': ('fault_enumeration',
+            'record-aware man-in-the-middle between two real sanitized endpoints, one enumerated fault per handshake; '
+            'TLS 1.3 inner plaintext altered through an interposed tls13_record_encrypt; verdict over both return codes '
+            'and the next tls_recv',
+            'Per protocol and auth mode an honest baseline fixes the record list; single-bit flips of handshake payload '
+            'bytes (stratified in quick, every byte in thorough), drop/duplicate/swap/truncate/inject at every record index '
+            'and plaintext flips inside encrypted TLS 1.3 flights are applied one per handshake; both sides must never '
+            'complete, and a side that completed must get no application data. Blocked endpoints are detected logically '
+            '(all threads sleeping in recvfrom, nothing readable), not by wall-clock.',
+            '4/C10', TRUSTED),
 }
 
 NOT_YET = {}
